@@ -160,9 +160,13 @@ def evaluate(case, env):
     if not case.get("without_mover"):  # (replays recorded before this fixture existed carry without_mover)
         files["mover.py"] = "import outside_mod\nclass Owner:\n    def __init__(self):\n        self.helper = outside_mod.OutsideCls()\n        self.k = 2\n    def meth(self, x):\n        return x + self.k\n"
     files["ignored/ign.py"] = "".join("%s = %d\n" % (n, i) for i, n in enumerate(names)) + "import m0\n"
+    # generated code ignored through the documented any-depth pattern form 'gen//*.py': directly in gen/, one and two levels below
+    gen_src = "".join("%s = %d\n" % (n, i) for i, n in enumerate(names)) + "import m0\nfrom m0 import *\n"
+    for gp in ("gen/stubs.py", "gen/v1/api.py", "gen/v1/models/shapes.py"):
+        files[gp] = gen_src
     fsmodel.write_tree(root, files)
     fsmodel.write_tree(sibling, {"outside_mod.py": outside_src, "outside_pkg/": None, "outside_pkg/__init__.py": "alpha = 5\n"})
-    project = Project(root, ropefolder=None, python_path=[sibling], ignored_resources=["ignored", "*.pyc"])
+    project = Project(root, ropefolder=None, python_path=[sibling], ignored_resources=["ignored", "*.pyc", "gen//*.py"])
     try:
         def snap():
             a = fsmodel.snapshot(root, with_mtime=True)
@@ -292,7 +296,8 @@ def evaluate(case, env):
             stray = {p for p in changed if p not in announced and not any(p == m or p.startswith(m + "/") for m in moved_roots)}
             if stray:
                 out.violation("C09:unannounced_change:" + kind, "changed %s, announced %s" % (sorted(stray)[:4], sorted(announced)[:6]), sub)
-            if any(p == "ignored" or p.startswith("ignored/") for p in changed):
+            # (an ignored path that did not exist before is the destination of a requested move, not a modification)
+            if any((p == "ignored" or p.startswith("ignored/") or (p.startswith("gen/") and p.endswith(".py"))) and (p in before or p + "/" in before) for p in changed):
                 out.violation("C09:ignored_resource_modified:" + kind, str(sorted(changed)[:4]), sub)
             if restricted is not None:
                 allowed = {r.path for r in restricted}
